@@ -28,6 +28,7 @@ type zzExec struct {
 	// computed fields (@requires): "Type.field" -> required field names and the function of their values.
 	// The monolith reads the required fields from the object (through field(), so failures propagate), a subgraph
 	// reads them from the representation it was sent; a missing one is recorded in missingRequired.
+	resolveHook     func(obj *zzO, field string, args string) (interface{}, bool) // custom resolution (introspection)
 	computed        map[string]zzComputed
 	argAware        map[string]bool // "Type.field": the value also shows the coerced arguments
 	subgraphSide    bool
@@ -218,6 +219,11 @@ func (e *zzExec) field(f zzCollected, obj *zzO) string {
 		return "null"
 	}
 	val := obj.f[name]
+	if e.resolveHook != nil {
+		if v, ok := e.resolveHook(obj, name, e.coerceArgs(f.refs[0], fd)); ok {
+			val = v
+		}
+	}
 	if c, ok := e.computed[obj.typ+"."+name]; ok {
 		vals := make([]string, len(c.requires))
 		for i, rn := range c.requires {
